@@ -290,12 +290,17 @@ func SubscribeWithReplay[T any](
 	}
 
 	// Load last offset for this subscription
-	lastOffset, _ := subStore.LoadOffset(ctx, subscriptionID)
+	// A failed load must not be mistaken for "no saved offset": that would
+	// replay from the beginning and deliver already-acknowledged events again
+	lastOffset, err := subStore.LoadOffset(ctx, subscriptionID)
+	if err != nil {
+		return fmt.Errorf("load subscription offset: %w", err)
+	}
 
 	// Replay missed events
 	// Use the same type name events of type T are persisted under
 	typeName := eventTypeNameOf[T]()
-	err := bus.Replay(ctx, lastOffset, func(stored *StoredEvent) error {
+	err = bus.Replay(ctx, lastOffset, func(stored *StoredEvent) error {
 		// Apply upcasts if available
 		eventData, eventTypeName := stored.Data, stored.Type
 		if bus.upcastRegistry != nil {
